@@ -23,6 +23,8 @@
     cp,i                      the caller goroutine panicked
     nh                        no OnListenForReplyFinished hook is configured in this scenario (the harness then takes the end of the
                               listeners from the goroutine census before it inspects the channels)
+    ns,i                      a handler invocation for request i returned, but its command was not acked within the liveness bound
+                              (nothing in the scenario holds the reply publisher or the Router back)
     end,stuck,left            number of waits that ran into the liveness bound; listener goroutines still alive
 -/
 namespace Wm.ReqReplyMon
@@ -41,6 +43,7 @@ inductive Ev
   | fz (i : Nat) (closed : Bool)
   | cp (i : Nat)
   | nh
+  | ns (i : Nat)
   | fin_ (stuck left : Nat)
   deriving Repr, Inhabited
 
@@ -73,6 +76,7 @@ def parseEv (t : String) : Option Ev :=
   | ["fz", i, c] => do pure (.fz (← i.toNat?) (← b01 c))
   | ["cp", i] => do pure (.cp (← i.toNat?))
   | ["nh"] => some .nh
+  | ["ns", i] => do pure (.ns (← i.toNat?))
   | ["end", s, l] => do pure (.fin_ (← s.toNat?) (← l.toNat?))
   | _ => none
 
@@ -191,8 +195,10 @@ def ruleSettle (cfg : Cfg) (evs : Array Ev) (complete : Bool) : Option String :=
         | some s => if s < p then return some "ack_after_reply_published(settled-before-publish-returned)"
         | none => pure ()
       | none =>
-        -- no reply was published: the command must not be acked
+        -- no reply was published (nothing in these scenarios keeps OnCommandProcessed from publishing): the command must
+        -- not be settled, neither way – "acked or nacked … only after the reply was published"
         if tak.isSome then return some "ack_after_reply_published(acked-without-reply)"
+        if tnk.isSome then return some "ack_after_reply_published(nacked-without-reply)"
       -- the table
       match tpr with
       | some p =>
@@ -204,6 +210,7 @@ def ruleSettle (cfg : Cfg) (evs : Array Ev) (complete : Bool) : Option String :=
           if complete && tak.isNone && tnk.isNone then return some "ack_per_AckCommandErrors(never-settled)"
         | _ => pure ()
       | none => pure ()
+    | .ns _ => return some "ack_per_AckCommandErrors(command-not-settled-within-liveness-bound)"
     | _ => pure ()
   return none
 
